@@ -245,6 +245,7 @@ def set_partitions(n):
 
 def apply_pattern(t, pat):
     """replace name i by pat[i]"""
+    if isinstance(t, str): return t
     op = t[0]; sig = SIG[op]; out = [op]; i = 1
     for kind in sig:
         a = t[i]; i += 1
@@ -258,3 +259,68 @@ if __name__ == '__main__':
         t1, t2 = ('f', a, b), ('f', c, d)
         C = Closure([t1, t2], [(t1, t2)], max(pat) + 1)
         print(pat, 'eq', C.equal(t1, t2), 'nr', C.nonredundant(t1), C.nonredundant(t2), 'sym', len(C.symmetries(t1)), len(C.symmetries(t2)), 'same', C.same_class(t1, t2))
+
+# ------------------------------------------------------------------ patterns (oracle side of rewriting / matching)
+def pat_vars(p):
+    if isinstance(p, str): return [p]
+    out = []
+    for kind, a in zip(SIG[p[0]], p[1:]):
+        if kind == 'c':
+            for v in pat_vars(a):
+                if v not in out: out.append(v)
+    return out
+
+def match_term(C, p, t, smap, vmap):
+    """all extensions of (slot map, var map) under which pattern p matches the named ground term t, children modulo the closure.
+    pattern slots are variables for pairwise distinct names (binder slots included)"""
+    if isinstance(p, str):
+        if p in vmap: return [(smap, vmap)] if C.equal(vmap[p], t) else []
+        v2 = dict(vmap); v2[p] = t; return [(smap, v2)]
+    if p[0] != t[0]: return []
+    states = [(smap, vmap)]
+    for kind, pa, ta in zip(SIG[p[0]], p[1:], t[1:]):
+        nxt = []
+        for sm, vm in states:
+            if kind in 'sb':
+                if pa in sm:
+                    if sm[pa] == ta: nxt.append((sm, vm))
+                elif ta not in sm.values():
+                    s2 = dict(sm); s2[pa] = ta; nxt.append((s2, vm))
+            else:
+                # the child class may contain other nodes of the right shape: try every universe term equal to the child
+                cands = [ta] if isinstance(pa, str) else class_members(C, ta)
+                for cand in cands: nxt.extend(match_term(C, pa, cand, sm, vm))
+        states = nxt
+        if not states: return []
+    return states
+
+def class_members(C, t):
+    c = C.cls(t); return [g for u, g in C.U.items() if C.find(u) == c]
+
+def instantiate(p, smap, vmap, fresh):
+    """a slot variable the left side does not bind stands for a name distinct from everything matched (fresh(a) supplies one per variable)"""
+    if isinstance(p, str): return vmap[p]
+    out = [p[0]]
+    for kind, a in zip(SIG[p[0]], p[1:]):
+        if kind in 'sb':
+            if a not in smap: smap = dict(smap); smap[a] = fresh(a)
+            out.append(smap[a])
+        else: out.append(instantiate(a, smap, vmap, fresh))
+    return tuple(out)
+
+def rule_instances(C, terms, lhs, rhs):
+    """(matched term, rhs instance) for every (sub)term in `terms` that is an instance of lhs"""
+    out = []; seen = set()
+    for t in terms:
+        for s in subterms(t):
+            for sm, vm in match_term(C, lhs, s, {}, {}):
+                used = set(all_names(s)) | set(sm.values()); extra = {}
+                def fresh(a):
+                    if a not in extra:
+                        n = max([x for x in used if isinstance(x, int)] + [C.nnames - 1]) + 1; used.add(n); extra[a] = n
+                    return extra[a]
+                try: r = instantiate(rhs, sm, vm, fresh)
+                except KeyError: continue         # rhs mentions a variable the lhs does not bind: outside the rule sets used
+                key = (canon(s), canon(r))
+                if key not in seen: seen.add(key); out.append((s, r))
+    return out
